@@ -52,7 +52,7 @@ def random_name(r: random.Random) -> str:
 
 def colliding_pool(r: random.Random) -> list[str]:
     """A small pool of names many of which collide after sanitisation."""
-    base = r.choice(["foo", "userId", "a-b", "Email", "type", "x", "HTTPServer"])
+    base = r.choice(["foo", "userId", "a-b", "Email", "type", "x", "HTTPServer", "field"])
     variants = {
         "foo": ["foo", "Foo", "foo_", "FOO", "foo_2", "foo-2", "foo_2_2", "foo2", "_foo", "foo_3"],
         "userId": ["userId", "user_id", "user-id", "UserId", "userID", "user id", "user_id_2", "User_Id", "userId2"],
@@ -61,5 +61,7 @@ def colliding_pool(r: random.Random) -> list[str]:
         "type": ["type", "Type", "type_", "TYPE", "type_2", "Type2", "type-"],
         "x": ["x", "X", "x_", "_x", "x_2", "x_1", "x1", "X_1", "x_3"],
         "HTTPServer": ["HTTPServer", "HttpServer", "http_server", "httpServer", "HTTP_Server", "http-server", "HTTPServer2", "http_server_2"],
+        # a dataclass attribute is never called `field` (it would shadow dataclasses.field): `field_`, then the usual `_2`, `_3`
+        "field": ["field", "Field", "field_", "FIELD", "field_2", "field__2", "fields", "-field-", "field__3"],
     }[base]
     return variants
